@@ -140,6 +140,14 @@ def cases(tier):
                                             "doc": gen.base_doc(c2, version=version), "pos": pos, "kind": kind, "notation": notation, "required": req,
                                             "default": DEFAULTS[ks] if dflt else None, "has_default": dflt, "key": key,
                                             "also": ["Sib"], "ctx": route}}
+                            if notation in ("none", "t31") or tier == "thorough":
+                                # the same model as multipart/form-data request body: a set value is a part, an absent one is not
+                                dm = copy.deepcopy(doc)
+                                dm["paths"] = {"/m": {"post": {"operationId": "postM", "requestBody": {"required": True, "content": {"multipart/form-data": {"schema": {"$ref": "#/components/schemas/M"}}}},
+                                                               "responses": {"204": {"description": "n"}}}}}
+                                yield {"labels": labels + ["via-multipart"], "payload": {
+                                    "doc": dm, "pos": "multipart", "kind": kind, "notation": notation, "required": req,
+                                    "default": DEFAULTS[ks] if dflt else None, "has_default": dflt, "key": key + "/multipart"}}
                             if tier == "thorough":
                                 # the same model as JSON request body and as JSON response of an operation: the three states on the wire
                                 d3 = copy.deepcopy(doc)
@@ -442,6 +450,47 @@ def _endpoint(p, res, sb):
     return uniq
 
 
+def _multipart(p, res, sb):
+    """The holder model as multipart/form-data body: a value that is set is a part of the request, an absent one is not."""
+    import httpx
+
+    from checks.c02 import err_class, find_class
+    cls = find_class(res, sb, "M")
+    if cls is None or not res.endpoints:
+        return None
+    key, viol = p["key"], []
+    mod = wire.endpoint_module(sb, res.endpoints[0])
+    states = [("value", {"p": copy.deepcopy(s_[1]), "other": 1}) for s_ in _samples(p["kind"])[:2]]
+    if not p["required"] and not p["has_default"]:
+        states.append(("absent", {"other": 1}))
+    for state, inst in states:
+        try:
+            body = cls.from_dict(copy.deepcopy(inst))
+        except Exception:  # noqa: BLE001   (decoding is judged by the model position)
+            continue
+        cap = wire.Capture(lambda request: httpx.Response(204))
+        for variant in ("sync_detailed", "asyncio_detailed"):
+            r = wire.call(mod, variant, lambda: wire.make_client(sb, cap), cap, {"body": body})
+            if not r["ok"] or not r["requests"]:
+                viol.append({"oracle": "multipart-call-raises", "site": "multipart", "key": f"{key}/{state}/{err_class(r.get('exc'))}", "detail": f"{variant} with p {state} ({inst.get('p')!r}) raised {r.get('exc')!r}"})
+                continue
+            content = r["requests"][0]["content"]
+            has_p, has_other = b'name="p"' in content, b'name="other"' in content
+            if not has_other:
+                viol.append({"oracle": "multipart-sibling-lost", "site": "multipart", "key": key, "detail": f"{variant}: part `other` missing with p {state}"})
+            if state == "value" and not has_p:
+                viol.append({"oracle": "value-on-the-wire", "site": "multipart", "key": key, "detail": f"{variant}: p={inst['p']!r} is set but the request has no part named p"})
+            if state == "absent" and has_p:
+                viol.append({"oracle": "absent-on-the-wire", "site": "multipart", "key": key, "detail": f"{variant}: p is absent but the request has a part named p"})
+    seen, uniq = set(), []
+    for v in viol:
+        k = (v["oracle"], v["key"])
+        if k not in seen:
+            seen.add(k)
+            uniq.append(v)
+    return uniq
+
+
 # the request body as a whole: present values that are falsy in Python are still PRESENT on the wire
 WHOLE_BODIES = {
     "array_int": ({"type": "array", "items": {"type": "integer"}}, [[], [0], [1, 2]]),
@@ -522,7 +571,10 @@ def run_case(p):
         return {"outcome": "rejected", "nontrivial": False}
     with Sandbox(res.pkg_tree()) as sb:
         try:
-            viol = _model(p, res, sb) if p["pos"] == "model" else (_endpoint(p, res, sb) if p["pos"] == "endpoint" else _param(p, res, sb))
+            if p["pos"] == "multipart":
+                viol = _multipart(p, res, sb)
+            else:
+                viol = _model(p, res, sb) if p["pos"] == "model" else (_endpoint(p, res, sb) if p["pos"] == "endpoint" else _param(p, res, sb))
         except ImportError as exc:
             return {"outcome": f"import-fails:{type(exc).__name__}", "nontrivial": False}
     if viol is None:
